@@ -38,8 +38,23 @@ def check(run):
                 metas.append((orig, data, new))
     answers = G.run_rd(lines)
     lean = G.run_driver(["cdns " + l.split()[2] for l in lines]) if run.driver_ok else [None] * len(lines)
-    for (orig, data, new), a, lg in zip(metas, answers, lean):
+    # the MODEL of the struct reader (Model.Schema.readVal, the subject of C08.read_denotes) on the same rewritten files:
+    # its preamble must be the one the library returns for the rewritten file
+    sch = G.run_driver(["sch " + l.split()[2] for l in lines]) if run.driver_ok else [None] * len(lines)
+    blk = G.run_driver(["blk " + l.split()[2] for l in lines]) if run.driver_ok else [None] * len(lines)
+    for (orig, data, new), a, lg, sm, bm in zip(metas, answers, lean, sch, blk):
         run.case(new.hex()[:120], new != data)
+        if bm is not None and a and a.startswith("I F{") and a.endswith(" EOF"):
+            run.count("schema-reader: whole rewritten file compared")
+            if bm[2:].split(" #")[0] != a[2:] and len(run.model_fail) < 5:
+                run.model_fail.append(("blk " + new.hex()[:4000], {"note": "model of the struct readers (readFile: preamble + blocks) differs from the library on a rewritten file",
+                                       "model": bm[:1000], "library": a[:1000]}))
+        if sm is not None and a and a.startswith("I F{"):
+            impl_pre = a[2:].split(" ")[0]
+            if (not sm.startswith("M ") or sm[2:].split(" #")[0] != impl_pre) and len(run.model_fail) < 5:
+                run.model_fail.append(("sch " + new.hex()[:4000], {"note": "model of the struct reader (readVal filePreamble) differs from the library on a rewritten file",
+                                       "model": sm[:800], "library": impl_pre[:800]}))
+            run.count("schema-reader: rewritten preamble compared")
         if a != orig:
             # which class of rewrite? (for the signature) – look at what the reader reported
             kind = "crash" if (a or "").startswith("CRASH") else ("exception" if " E:" in (a or "")[-8:] else "different-records")
